@@ -48,7 +48,8 @@ def run(R, tier):
             for c in b.calls(with_promoted=True):
                 if c.name.endswith("Device::handle_error") or (c.method == "handle_error" and c.trait and c.trait.endswith("Device")):
                     callers.append(b.npath)
-    R.check(sorted(set(callers)) == ["scpi::tree::Node::run"], "R05.2", "hook-callers", "Device::handle_error is called only by Node::run", "Device::handle_error called from %s (only Node::run may report errors, once)" % sorted(set(callers)))
+    stray = [c for c in sorted(set(callers)) if not D.only_reached_from(P, c, ("scpi::tree::Node::run",))]
+    R.check(callers and not stray, "R05.2", "hook-callers", "Device::handle_error is called only by Node::run (its closures / private helpers included)", "Device::handle_error called from %s (only Node::run may report errors, once)" % stray)
 
     # ---- R05.3/R05.5 run_tokens: abort at the first failed call ----------------------------------------------
     rt = D.run_tokens_table()
@@ -124,7 +125,7 @@ def run(R, tier):
 
     # ---- R05.6 response unit latch -------------------------------------------------------------------------------------
     ru_adt = "scpi::parser::response::ResponseUnit"
-    eng = D.engine(inline=lambda n, r: False)
+    eng = D.engine(inline=D.inline_inherent(("scpi::parser::response::ResponseUnit::",)))
     for meth, nargs in (("data", 1), ("header", 1)):
         b = u.body("scpi::parser::response::ResponseUnit::" + meth)
         for res_state, label in ((fdai.mk_err(SymV("first-error", "first-error")), "Err"), (fdai.mk_ok(fdai.UNIT), "Ok")):
